@@ -203,6 +203,20 @@ CLAIMED = {
             "ellipsis mark and blanks for cut wide characters may carry None or an attribute of the text / of the cut character (the property fixes "
             "no more). Layout exceptions and charset/text mismatches are DIVERGENCE (C03/C04). Two defects found and repaired (findings/C17.json).",
             "DESIGN.md §4 C17"),
+    "C06": ("TLA+ design model CanvasCache.tla (store / fetch / invalidate cascade / weak-reference cleanup as coded, canvases held or released by the "
+            "environment, focus-dependent keys) model-checked by TLC against the contract CanvasCacheOps.tla, five broken designs refuted; TLC trace "
+            "validation (CanvasCacheTrace.tla) of TLC-simulated and random histories executed on real widget trees with the live cache against the "
+            "same tree with all caches emptied",
+            "TLC shows that in every reachable state of the bounded model no cache entry can answer with an outdated canvas and that dropping the cascade, "
+            "the dependency registration, live dependency lists in cleanup, the store rule or a mutator's invalidate breaks this; for every render()/rows() "
+            "call of every recorded history on real Pile/Columns/GridFlow/ListBox/Frame/Filler/Padding/AttrMap/WidgetPlaceholder/LineBox/BoxAdapter/"
+            "Scrollable/ScrollBar/Overlay trees (mutators, keys, mouse, contents and walker edits, focus paths, placeholder swaps, hold/drop/gc) TLC compares "
+            "content, cursor and row counts of the cached path with the cache-free rendering, re-reads every canvas handed out, and checks that a change "
+            "shows in the next rendering of every ancestor.",
+            "Trusted: TLC, vf/props/c06.py (canvas projection, deep-copy reference with CanvasCache dictionaries swapped for empty ones and _cache_maxcol reset, "
+            "cross-checked by a twin tree that never sees a cache), CPython refcounting. Three defects found and repaired (findings/C06.json). Cyclic-GC "
+            "timing not explored; twin-tree differences (render side effects skipped by hits) are DIVERGENCE only.",
+            "DESIGN.md §4 C06"),
 }
 
 NOT_APPLICABLE = {}
